@@ -156,7 +156,37 @@ pub fn any_wide() -> Vec<String> {
     v
 }
 
+/// `pool_lits` plus arguments that are read from the input record of the enumeration (its
+/// members n m i j s t b c z an as ab ao aa o os ...), so that every function also meets
+/// every argument position filled from the input and not from a literal
 pub fn pool(k: Kind) -> Vec<String> {
+    let mut v = pool_lits(k);
+    let paths: &[&str] = match k {
+        Any => &[".n", ".s", ".an", ".o", ".z", ".nosuch", "^.n", "."],
+        Num => &[".n", ".m", ".i", ".nosuch"],
+        Int => &[".i", ".j", ".m"],
+        Str => &[".s", ".t", ".nosuch"],
+        Bool => &[".b", ".c"],
+        Nas => &[".ns", ".nt"],
+        Regex => &[".re"],
+        TimeFmt => &[".tf"],
+        JsonText => &[".js"],
+        Arr => &[".an", ".as", ".ao", ".aa", ".ab", ".e"],
+        ArrNum => &[".an", ".e"],
+        ArrStr => &[".as"],
+        ArrBool => &[".ab"],
+        ArrObj => &[".ao"],
+        ArrArr => &[".aa"],
+        ArrNas => &[".ans"],
+        Obj | ObjNum => &[".o", ".eo", "."],
+        ObjStr => &[".os"],
+        _ => &[],
+    };
+    v.extend(paths.iter().map(|s| s.to_string()));
+    v
+}
+
+pub fn pool_lits(k: Kind) -> Vec<String> {
     let own = |v: &[&str]| v.iter().map(|s| s.to_string()).collect::<Vec<_>>();
     match k {
         Any => any_wide(),
@@ -392,8 +422,12 @@ pub fn build(si: usize, sl: &[Slot], picks: &[usize]) -> Expr {
     for (s, p) in sl.iter().zip(picks) {
         match s {
             Slot::Lits(v) => {
-                if !v[*p].is_empty() {
-                    args.push(Expr::Lit(v[*p].clone()));
+                let t = &v[*p];
+                if t.starts_with('.') || t.starts_with('^') {
+                    // an argument read from the input record (or from a parent that does not exist)
+                    args.push(mini_parse(t));
+                } else if !t.is_empty() {
+                    args.push(Expr::Lit(t.clone()));
                 }
             }
             Slot::Lams(v) => args.push(mini_parse(v[*p])),
@@ -408,7 +442,7 @@ mod tests {
     #[test]
     fn pools_are_json_and_lambdas_parse() {
         for k in [Any, Null, Bool, Num, Int, Str, Nas, Regex, TimeFmt, TimeStr, JsonText, ExprText, B64, EnvName, Arr, ArrNum, ArrStr, ArrBool, ArrObj, ArrArr, ArrNas, Obj, ObjNum, ObjStr, Rec] {
-            for t in pool(k) {
+            for t in pool_lits(k) {
                 assert!(crate::rjson::parse_one(t.as_bytes()).is_ok(), "{:?} {}", k, t);
             }
         }
